@@ -46,7 +46,7 @@ mut("c04_close_no_push", "src/storage/core.rs", """            if let Some(ablob
             }""", ["C04", "C15"], "closing an empty active blob forgets it")
 # ---- C05
 mut("c05_no_audit_load_data", "src/blob/entry.rs", "        self.header.data_checksum_audit(&data)?;\n        Ok(data)", "        Ok(data)", ["C05"])
-mut("c05_no_validate_load", "src/blob/entry.rs", "        Record::new(self.header, meta, data_buf)\n            .validate()\n", "        Ok(Record::new(self.header, meta, data_buf))\n", ["C05"], "checksum verification removed from the read path")
+mut("c05_no_validate_load", "src/blob/entry.rs", "        Record::new(self.header, meta, data_buf)\n            .validate()\n            .with_context(|| format!(\"validation failed for Record loaded from BLOB: {}\", self.blob_file_name.as_path().display()))\n", "        Ok(Record::new(self.header, meta, data_buf))\n", ["C05"], "checksum verification removed from the read path")
 mut("c05_include_data_off", "src/record/record.rs", "let include_data = head_size + data.len() <= MAX_SINGLE_PASS_DATA_SIZE;", "let include_data = head_size + data.len() <= MAX_SINGLE_PASS_DATA_SIZE + 1;", ["C05"], "EQUIVALENT on behaviour (one more byte in the single buffer)")
 mut("c05_double_offset", "src/io/unix/sync.rs", "                offset = offset + b1.len() as u64;", "                offset = offset + b1.len() as u64 - ((b1.len() == 4000) as u64);", ["C05"], "second buffer lands one byte early for one head size")
 mut("c05_regen_no_data_check", "src/blob/core.rs", "            if let Some(data) = data {\n                header.data_checksum_audit(&data)", "            if let Some(data) = data.filter(|_| false) {\n                header.data_checksum_audit(&data)", ["C05"], "validate_data_during_index_regen ignored")
@@ -157,6 +157,7 @@ mut("c12_no_close_sync", "src/storage/core.rs", """            if let Some(ablob
 """, "", ["C12"], "try_close_active_blob no longer syncs the blob")
 mut("c12_should_try_ge", "src/storage/core.rs", "        dirty_bytes > self.config().max_dirty_bytes_before_sync()", "        dirty_bytes > self.config().max_dirty_bytes_before_sync() + 64", ["C12"], "threshold off by 64 bytes")
 mut("c12_synced_post_size", "src/io/unix/sync.rs", "               file_inner.synced_size.fetch_max(size, Ordering::SeqCst);", "               file_inner.synced_size.fetch_max(size.saturating_sub(1), Ordering::SeqCst);", ["C12"], "one byte always considered dirty: limit 0 syncs forever but harmless? (dirty accounting)")
+mut("c12_sync_counts_reserved", "src/io/unix/sync.rs", "        let size = self.inner.written_size();", "        let size = self.size();", ["C12"], "reverts fix: a sync accounts reserved-but-unwritten ranges as synced")
 mut("c12_f7_revert", "src/storage/core.rs", "        self.inner.safe.read().await.fsyncdata().await\n    }", "        self.inner.fsyncdata().await\n    }", ["C12"], "reverts fix F7")
 # ---- C13
 mut("c13_lost_dump_request", "src/storage/observer_worker.rs", """                if !self.try_run_old_blob_indexes_dump_task().await {
@@ -214,7 +215,7 @@ mut("c16_skip_off_by_header", "src/tools/blob_reader.rs", "            .checked_
 mut("c16_writer_no_revalidate", "src/tools/blob_writer.rs", "            let written_record = reader.read_single_record()?;\n            if record != &written_record {", "            let written_record = reader.read_single_record()?;\n            if false && record != &written_record {", ["C16"], "EQUIVALENT unless the writer is broken: written records not compared")
 mut("c16_validate_index_no_hash", "src/blob/index/bptree/core.rs", "        if !Self::hash_valid(&self.header, buf)? {", "        if false && !Self::hash_valid(&self.header, buf)? {", ["C16"], "validate_index without the hash check")
 mut("c16_f8_revert", "src/tools/blob_writer.rs", "        if record.header.blob_offset() != self.written {", "        if false && record.header.blob_offset() != self.written {", ["C16"], "reverts fix F8")
-mut("c16_validate_skips_last", "src/tools/validation.rs", "    while !reader.is_eof() {\n        reader.read_record(false)?;\n    }\n    Ok(())", "    while !reader.is_eof() {\n        if reader.read_record(false).is_err() && reader.is_eof() { break; }\n    }\n    Ok(())", ["C16"], "validate_blob tolerates a damaged last record")
+mut("c16_validate_skips_last", "src/tools/validation.rs", "    while !reader.is_eof() {\n        reader.read_record(false)?;\n    }\n    Ok(())", "    while !reader.is_eof() {\n        match reader.read_record(false) {\n            Err(_) if reader.is_eof() => break,\n            r => { r?; }\n        }\n    }\n    Ok(())", ["C16"], "validate_blob tolerates a damaged last record")
 mut("c16_migrate_drops_markers", "src/tools/utils.rs", "            Ok(record) => {\n                writer.write_record(record)?;\n                count += 1;", "            Ok(record) => {\n                if !(source_version == 0 && record.header().is_deleted()) { writer.write_record(record)?; }\n                count += 1;", ["C16"], "v0->v1 migration drops deletion markers")
 mut("c16_collector_counts_keys", "src/tools/collectors.rs", "    fn add_record(&mut self, record: Record) {\n        self.records += 1;", "    fn add_record(&mut self, record: Record) {\n        self.records = self.keys.len() + 1;", ["C16"], "BlobSummaryCollector counts unique keys instead of records")
 # ---- C17
